@@ -11,7 +11,8 @@ the filter inverse (`unfilter fs (applyFilters fs d) = d`, discharged by the fil
 Definitions used in the statements (from the helper files):
 * `Bytes`, `PayloadOk`                                   — as specified
 * `PreOk`, `DictOk`, `FiltersOk` (decidable), `readerDict1`, `readerDict`, `readerFilter`
-* `SizesOk c fs blocks`                                  — the index fields fit the format's 63-bit integers
+* `SizesOk c fs blocks` = `SizesOk63 ∧ IndexFits`         — the index fields fit the format's 63-bit integers, and the
+                                                           Index (≤ 2^34 bytes) fits the footer's 32-bit Backward Size
 * `blkOf fs (payload, data)`                             — the `Block` record the reader reports
 * `Strm`, `catBytes`, `catData`, `finalBlks`             — lists of streams with stream padding
 * `decodeA`, `Audit`, `Audit.Verified`                   — the auditing reader
@@ -39,7 +40,7 @@ theorem parse_blockHeader (fs : List Filter) (hfs : FiltersOk fs) (r : List Nat)
 
 theorem parse_index (recs : List (Nat × Nat)) (hn : recs.length < 2 ^ 63) (h : ∀ x ∈ recs, RecOk x) (r : List Nat) :
     parseBlockHeader (indexBytes recs ++ r) = .ok (none, (indexBytes recs).tail ++ r) ∧
-    parseIndex ((indexBytes recs).tail ++ r) = .ok (recs, r) := by
+    parseIndex ((indexBytes recs).tail ++ r) = .ok (recs, (indexBytes recs).length, r) := by
   refine ⟨?_, parseIndex_ok recs hn h r⟩
   rw [indexBytes_cons, List.cons_append, parseBlockHeader_zero, List.tail_cons]
 
@@ -64,10 +65,10 @@ theorem length_le_flatten {α : Type} : ∀ (l : List (List α)) (x : List α), 
     · omega
     · have := ih x hx; omega
 
-/-- `SizesOk` follows from the obvious bounds on the stream and on the data -/
-theorem sizesOk_of_length (c : Check) (fs : List Filter) (blocks : List (List Nat × List Nat))
+/-- `SizesOk63` follows from the obvious bounds on the stream and on the data -/
+theorem sizesOk63_of_length (c : Check) (fs : List Filter) (blocks : List (List Nat × List Nat))
     (h1 : (streamBytes c fs blocks).length < 2 ^ 63) (h2 : ((blocks.map (·.2)).flatten).length < 2 ^ 63) :
-    SizesOk c fs blocks := by
+    SizesOk63 c fs blocks := by
   rw [streamBytes_eq, List.length_append, streamHeaderBytes_length] at h1
   simp only [streamBody, List.length_append] at h1
   have hbb := blocksBytes_mod4 c fs blocks
@@ -86,6 +87,13 @@ theorem sizesOk_of_length (c : Check) (fs : List Filter) (blocks : List (List Na
     have := length_le_flatten _ _ hm
     omega
 
+/-- `SizesOk` follows from the obvious bounds on the stream and on the data, and at most 2^29 blocks (so that
+the Index fits the footer's Backward Size field) -/
+theorem sizesOk_of_length (c : Check) (fs : List Filter) (blocks : List (List Nat × List Nat))
+    (h1 : (streamBytes c fs blocks).length < 2 ^ 63) (h2 : ((blocks.map (·.2)).flatten).length < 2 ^ 63)
+    (hn : blocks.length ≤ 2 ^ 29) : SizesOk c fs blocks :=
+  sizesOk_of_blocks c fs blocks (sizesOk63_of_length c fs blocks h1 h2) hn
+
 /-! ## Round trip (C16: exact consumption is the `consumed` component, for ANY `rest`) -/
 
 /-- Container-level round trip with the reported block list made explicit.  `Bytes` hypotheses are not needed. -/
@@ -99,7 +107,8 @@ theorem xz_roundtrip_blocks (c : Check) (fs : List Filter) (hfs : FiltersOk fs)
   xz_roundtrip_core c fs hfs blocks (fun b hbm => blockOk_of fs b (hb b hbm)) hsz rest cap hcap
 
 /-- **Container-level round trip** (requested form; the only change is the added `hsz`: the model's writer emits
-nothing for index fields ≥ 2^63, so the sizes must fit the format's 63-bit integers). -/
+nothing for index fields ≥ 2^63, so the sizes must fit the format's 63-bit integers; and the writer truncates the
+Backward Size of an Index above 2^34 bytes, which the reader now detects: `xz_roundtrip_iff`). -/
 theorem xz_roundtrip (c : Check) (fs : List Filter) (hfs : FiltersOk fs)
     (blocks : List (List Nat × List Nat))
     (hb : ∀ b ∈ blocks, PayloadOk (readerDict fs) b.1 (applyFilters fs b.2) ∧
@@ -115,10 +124,28 @@ theorem xz_roundtrip' (c : Check) (fs : List Filter) (hfs : FiltersOk fs)
     (blocks : List (List Nat × List Nat))
     (hb : ∀ b ∈ blocks, PayloadOk (readerDict fs) b.1 (applyFilters fs b.2) ∧ unfilter fs (applyFilters fs b.2) = b.2)
     (hlen : (streamBytes c fs blocks).length < 2 ^ 63) (hdat : ((blocks.map (·.2)).flatten).length < 2 ^ 63)
+    (hn : blocks.length ≤ 2 ^ 29)
     (rest : List Nat) (cap : Nat) (hcap : ((blocks.map (·.2)).flatten).length ≤ cap) :
     ∃ blks, Xz.decode false (streamBytes c fs blocks ++ rest) cap
       = .ok (blocks.map (·.2)).flatten (streamBytes c fs blocks).length blks :=
-  ⟨_, xz_roundtrip_blocks c fs hfs blocks hb (sizesOk_of_length c fs blocks hlen hdat) rest cap hcap⟩
+  ⟨_, xz_roundtrip_blocks c fs hfs blocks hb (sizesOk_of_length c fs blocks hlen hdat hn) rest cap hcap⟩
+
+/-- **The boundary of the round trip.**  With the 63-bit conditions alone, the reader accepts the writer's output
+exactly when the Index is at most 2^34 bytes long: above that `write_stream_footer` truncates the Backward Size
+(`as u32`) and the reader, which compares it with the size of the Index, rejects the writer's own stream. -/
+theorem xz_roundtrip_iff (c : Check) (fs : List Filter) (hfs : FiltersOk fs)
+    (blocks : List (List Nat × List Nat))
+    (hb : ∀ b ∈ blocks, PayloadOk (readerDict fs) b.1 (applyFilters fs b.2) ∧ unfilter fs (applyFilters fs b.2) = b.2)
+    (hsz : SizesOk63 c fs blocks)
+    (rest : List Nat) (cap : Nat) (hcap : ((blocks.map (·.2)).flatten).length ≤ cap) :
+    Xz.decode false (streamBytes c fs blocks ++ rest) cap
+      = if (indexBytes (recsOf c fs blocks)).length ≤ 2 ^ 34 then
+          .ok (blocks.map (·.2)).flatten (streamBytes c fs blocks).length (blocks.map (blkOf fs)).reverse
+        else .err .invalidData := by
+  rw [decode_stream_gen false c fs hfs blocks (fun b hbm => blockOk_of fs b (hb b hbm)) hsz rest cap hcap]
+  split
+  · simp [afterStream, blocksData]
+  · rfl
 
 /-- C16: in single-stream mode the whole result (data, consumed count, blocks) does not depend on what follows
     the stream -/
@@ -224,7 +251,7 @@ example : readerDict [.delta 4, .lzma2 5000] = 6144 := by decide
 example (rest : List Nat) : Xz.decode false (streamBytes .crc32 [.lzma2 4096] [] ++ rest) 10
     = .ok [] (streamBytes .crc32 [.lzma2 4096] []).length [] :=
   xz_roundtrip_blocks .crc32 [.lzma2 4096] (by decide) [] (by intro b hb; cases hb)
-    ⟨by decide, by intro b hb; cases hb⟩ rest 10 (by simp)
+    (sizesOk_nil _ _) rest 10 (by simp)
 
 example : (streamBytes .crc32 [.lzma2 4096] []).length = 32 := by
   simp [streamBytes, streamHeaderBytes, indexBytes, footerBytes, le_length, mb, XzInt.encode, XzInt.encodeFuel,
@@ -247,7 +274,7 @@ example (x : Nat) (rest : List Nat) :
       List.cons_append, List.nil_append] at hp
     exact ⟨hp, rfl⟩
   have hsz : SizesOk .crc64 [.lzma2 4096] [([1, 0, 0, x, 0], [x])] := by
-    refine ⟨by simp, ?_⟩
+    refine sizesOk_of_blocks _ _ _ ⟨by simp, ?_⟩ (by simp)
     intro b hb
     rw [List.mem_singleton] at hb
     subst hb
@@ -263,8 +290,8 @@ example : Xz.decode true ((Strm.mk .crc32 [.lzma2 4096] []).bytes ++ List.replic
     = .ok [] ((Strm.mk .crc32 [.lzma2 4096] []).bytes ++ List.replicate 8 0 ++
       (Strm.mk .sha256 [.delta 4, .lzma2 65536] []).bytes).length [] :=
   xz_concat_two ⟨.crc32, [.lzma2 4096], []⟩ ⟨.sha256, [.delta 4, .lzma2 65536], []⟩
-    (Strm.ok_of _ _ _ (by decide) (by intro b hb; cases hb) ⟨by decide, by intro b hb; cases hb⟩)
-    (Strm.ok_of _ _ _ (by decide) (by intro b hb; cases hb) ⟨by decide, by intro b hb; cases hb⟩) 8 (by decide) 0 (by simp [Strm.data, blocksData])
+    (Strm.ok_of _ _ _ (by decide) (by intro b hb; cases hb) (sizesOk_nil _ _))
+    (Strm.ok_of _ _ _ (by decide) (by intro b hb; cases hb) (sizesOk_nil _ _)) 8 (by decide) 0 (by simp [Strm.data, blocksData])
 
 #print axioms parse_streamHeader
 #print axioms parse_filter_pre
@@ -275,6 +302,7 @@ example : Xz.decode true ((Strm.mk .crc32 [.lzma2 4096] []).bytes ++ List.replic
 #print axioms xz_roundtrip_blocks
 #print axioms xz_roundtrip
 #print axioms xz_roundtrip'
+#print axioms xz_roundtrip_iff
 #print axioms xz_exact_consumption
 #print axioms xz_concat_list
 #print axioms xz_concat_list_gen
